@@ -38,6 +38,9 @@ func (w *fileWriter) file(file *model.File) error {
 	}
 
 	for _, imp := range file.Imports {
+		if !w.importUsed(file, imp) {
+			continue
+		}
 		pkg := importPackage(imp)
 		w.linef(`%v "%v"`, imp.Name, pkg)
 	}
@@ -65,6 +68,51 @@ func (w *fileWriter) file(file *model.File) error {
 
 	// Definitions
 	return w.definitions(file)
+}
+
+// importUsed returns true if the generated file references the import,
+// Go does not compile files with unused imports.
+func (w *fileWriter) importUsed(file *model.File, imp *model.Import) bool {
+	used := func(typ *model.Type) bool {
+		for ; typ != nil; typ = typ.Element {
+			if typ.Import == imp {
+				return true
+			}
+		}
+		return false
+	}
+
+	for _, def := range file.Definitions {
+		switch def.Type {
+		case model.DefinitionMessage:
+			for _, field := range def.Message.Fields.List {
+				if used(field.Type) {
+					return true
+				}
+			}
+
+		case model.DefinitionStruct:
+			for _, field := range def.Struct.Fields.Values() {
+				if used(field.Type) {
+					return true
+				}
+			}
+
+		case model.DefinitionService:
+			if w.skipRPC {
+				continue
+			}
+			for _, m := range def.Service.Methods {
+				if used(m.Request) || used(m.Response) || used(m.Subservice) {
+					return true
+				}
+				if ch := m.Channel; ch != nil && (used(ch.In) || used(ch.Out)) {
+					return true
+				}
+			}
+		}
+	}
+	return false
 }
 
 func (w *fileWriter) definitions(file *model.File) error {
